@@ -344,3 +344,34 @@ Section Items.
       rewrite (Q j). destruct (N.eq_dec i j); [subst; contradiction | reflexivity].
   Qed.
 End Items.
+
+(* ------------------------------------------------------------------ *)
+(* any order of the visits (C07): however the index space is split and in whatever order the pieces are
+   processed, the storages end up cell for cell the same and every storage member hands out the same values *)
+From Coq Require Import Sorting.Permutation.
+
+Theorem any_visit_order_same_cells unit av hs excl eids ms keys keys' S s j : NoDup keys -> Permutation keys keys' ->
+  cell (fst (a_visit_keys unit av hs excl eids ms keys S)) s j = cell (fst (a_visit_keys unit av hs excl eids ms keys' S)) s j.
+Proof.
+  intros Hnd Hp. assert (NoDup keys') as Hnd' by (eapply Permutation_NoDup; eassumption).
+  rewrite !a_visit_keys_cell by assumption.
+  destruct (in_dec N.eq_dec j keys) as [H1|H1]; destruct (in_dec N.eq_dec j keys') as [H2|H2]; try reflexivity; exfalso.
+  - apply H2. eapply Permutation_in; eassumption.
+  - apply H1. eapply Permutation_in; [apply Permutation_sym|]; eassumption.
+Qed.
+
+Theorem any_visit_order_same_items unit av hs excl eids pre m post s keys keys' S : NoDup keys -> Permutation keys keys' ->
+  reads_cell m s = true -> forallb (fun m' => negb (m_owns m' s)) pre = true ->
+  forall j xs xs', In (j, xs) (snd (a_visit_keys unit av hs excl eids (pre ++ m :: post) keys S)) ->
+                   In (j, xs') (snd (a_visit_keys unit av hs excl eids (pre ++ m :: post) keys' S)) ->
+  nth_error xs (length pre) = nth_error xs' (length pre).
+Proof.
+  intros Hnd Hp Hr Hpre j xs xs' H1 H2. assert (NoDup keys') as Hnd' by (eapply Permutation_NoDup; eassumption).
+  rewrite (join_items_are_the_initial_cells unit av hs excl eids pre m post s keys S Hnd Hr Hpre j xs H1).
+  rewrite (join_items_are_the_initial_cells unit av hs excl eids pre m post s keys' S Hnd' Hr Hpre j xs' H2). reflexivity.
+Qed.
+
+(* every index is delivered once in any order: the rows' indices are the keys *)
+Theorem any_visit_order_same_indices unit av hs excl eids ms keys keys' S : Permutation keys keys' ->
+  Permutation (map fst (snd (a_visit_keys unit av hs excl eids ms keys S))) (map fst (snd (a_visit_keys unit av hs excl eids ms keys' S))).
+Proof. intros Hp. rewrite !a_visit_keys_indices. exact Hp. Qed.
